@@ -53,7 +53,7 @@ func SharedRun(w *World, rng *rand.Rand, ty string, ch, roFrames, wFrames, R, W,
 		w.WriteFloats(root, fs)
 	}
 	ragged := false
-	if mode == 0 || roFrames < 2 {
+	if mode == 0 || mode == 3 || roFrames < 2 {
 		w.Slice(root, 0, roFrames)
 	} else {
 		w.Slice(root, 0, roFrames-1)
@@ -103,12 +103,27 @@ func SharedRun(w *World, rng *rand.Rand, ty string, ch, roFrames, wFrames, R, W,
 		}
 	}
 	wsrc := make([]int, W)
+	wfn := make([]string, W) // conversion each writer uses into its window: any family and source type that fits
 	for i := range wsrc {
-		wsrc[i] = w.filledRoot(kt, ch, wFrames+2) // longer than the window: only the window's length may be written
+		sty := kt
+		wfn[i] = convFn
+		if ty == kt {
+			var opts [][2]string
+			for _, f := range ConvFns {
+				if contains(f.Dst, kt) {
+					for _, st := range f.Src {
+						opts = append(opts, [2]string{f.Name, st})
+					}
+				}
+			}
+			o := opts[rng.Intn(len(opts))]
+			wfn[i], sty = o[0], o[1]
+		}
+		wsrc[i] = w.spreadSource(sty, ch, wFrames+2) // longer than the window: only the window's length may be written
 	}
 	// channel views are taken (and cached) before the concurrent phase
 	for c := 0; c < ch; c++ {
-		if mode == 0 {
+		if mode == 0 || mode == 3 {
 			w.ChanShape(ro, c)
 		} else { // in modes 1 and 2 nothing may look at the shared window before the goroutines do: only take the view
 			w.Views[ro].ChanNew(c)
@@ -140,6 +155,10 @@ func SharedRun(w *World, rng *rand.Rand, ty string, ch, roFrames, wFrames, R, W,
 			f := fs[g].f
 			r := rand.New(rand.NewSource(seeds[g]))
 			<-start
+			if mode == 3 && g < R && len(rconvs[g]) > 0 { // burst: every reader's FIRST call is a conversion of the shared window
+				rc := rconvs[g][g%len(rconvs[g])]
+				f.Convert(rc.fn, ro, rc.dst)
+			}
 			for k := 0; k < opsPer; k++ {
 				if g < R && ragged {
 					l := f.Views[ro].Len()
@@ -233,8 +252,8 @@ func SharedRun(w *World, rng *rand.Rand, ty string, ch, roFrames, wFrames, R, W,
 					case 3:
 						f.ChanSet(wi, r.Intn(ch), r.Intn(wFrames), f.NextStamp())
 					case 4:
-						if convFn != "" && ty == kt {
-							f.Convert(convFn, wsrc[g-R], wi)
+						if wfn[g-R] != "" && ty == kt {
+							f.Convert(wfn[g-R], wsrc[g-R], wi)
 						}
 					case 5:
 						f.Sample(wi, r.Intn(l))
@@ -266,6 +285,10 @@ func driveShared(s *shardSet, rng *rand.Rand, thorough bool) ([]string, map[stri
 	}
 	types := typesFor(false)
 	extra := map[string]int{}
+	// the very first phase of the process: 8 readers whose first call converts the shared float window (tables or
+	// scratch state built lazily by the conversions are first touched by several goroutines at once)
+	SharedRun(s.Next(), rng, []string{"float64", "float32"}[rng.Intn(2)], 2, 3, 1, 8, 2, 3, 8, 3)
+	extra["concurrent_phases"]++
 	for i := 0; i < n; i++ {
 		ty := types[i%len(types)]
 		if i%4 == 3 {
